@@ -20,13 +20,32 @@ import (
 	"google.golang.org/protobuf/proto"
 )
 
+// walkEntries calls fn for every entry of dir. Unlike filepath.Walk it lists the directory through a symbolic link,
+// does not visit dir itself (whose own name may start with one of the reserved prefixes) and does not descend.
+func walkEntries(dir string, fn filepath.WalkFunc) error {
+	entries, err := os.ReadDir(dir)
+	if err != nil {
+		return err
+	}
+
+	for _, e := range entries {
+		info, err := e.Info()
+		err = fn(filepath.Join(dir, e.Name()), info, err)
+		if err != nil && !errors.Is(err, filepath.SkipDir) {
+			return err
+		}
+	}
+
+	return nil
+}
+
 func (db *DB) repairCompactions() error {
 	// we are only scanning for any compactions that were running.
 	// If one was successful, we make sure it's finished by deleting all the corresponding sstables.
 	// If it was unsuccessful the whole folder is deleted and it can be attempted again.
 	var compactionsToFinish []*dbproto.CompactionMetadata
 	var compactionsToDelete []string
-	err := filepath.Walk(db.basePath, func(p string, info os.FileInfo, err error) error {
+	err := walkEntries(db.basePath, func(p string, info os.FileInfo, err error) error {
 		if err != nil {
 			return err
 		}
@@ -127,7 +146,7 @@ func (db *DB) repairCompactions() error {
 func (db *DB) reconstructSSTables() error {
 	var tablePaths []string
 
-	err := filepath.Walk(db.basePath, func(path string, info os.FileInfo, err error) error {
+	err := walkEntries(db.basePath, func(path string, info os.FileInfo, err error) error {
 		if err != nil {
 			return err
 		}
